@@ -190,6 +190,11 @@ def specPipelineX (db : Pipe.Db) : List Val → List Val → Option (List Val)
   | .doc [(op, opts)] :: rest, docs => (specStageX db op opts docs).bind (specPipelineX db rest)
   | _ :: _, _ => none
 
+/-- the verdict of the extended oracle: a pipeline holding a rejected stage (`stageRejected`) is
+    rejected, else the documents of `specPipelineX` -/
+def specPipelineXV (db : Pipe.Db) (p docs : List Val) : Option Verdict :=
+  if p.any stageRejected then some .rejected else (specPipelineX db p docs).map .docs
+
 /-- `$facet`: every sub-pipeline on the same input -/
 def specFacet (db : Pipe.Db) : Fields → List Val → Option Fields
   | [], _ => some []
@@ -397,7 +402,10 @@ def pipelineReasonsX (db : Pipe.Db) : List Val → List Val → List String
       (match specStageX db op opts docs with
        | some out => pipelineReasonsX db rest out
        | none => ["nospec"])
-  | _ :: _, _ => ["multiopstage"]
+  | _ :: _, _ => []          -- not a one-field document: rejected (`stageRejected`), no class
+
+def pipelineReasonsXV (db : Pipe.Db) (pipeline docs : List Val) : List String :=
+  if pipeline.any stageRejected then [] else pipelineReasonsX db pipeline docs
 
 def inDX (db : Pipe.Db) (pipeline docs : List Val) : Bool := (pipelineReasonsX db pipeline docs).isEmpty
 
